@@ -165,3 +165,11 @@ Example ex_assoc :
   run_ops [APut (Atom [98%N]) (Int 1); APut (Atom [97%N]) (Int 2); AGet (Atom [97%N]); ADel (Atom [98%N]); AGet (Atom [98%N])] []
   = ([Some (Int 2); Some (Int 1); None], [(Atom [97%N], Int 2)]).
 Proof. vm_compute. reflexivity. Qed.
+(* the tree checker is not vacuous: a correct tree passes, a wrong balance symbol or a misplaced key fails *)
+Example ex_avl :
+  map avl_ok
+    [Cmp t_name [Atom [98%N]; Int 1; Atom [60%N]; Cmp t_name [Atom [97%N]; Int 2; Atom [45%N]; Atom t_name; Atom t_name]; Atom t_name];
+     Cmp t_name [Atom [98%N]; Int 1; Atom [45%N]; Cmp t_name [Atom [97%N]; Int 2; Atom [45%N]; Atom t_name; Atom t_name]; Atom t_name];
+     Cmp t_name [Atom [97%N]; Int 1; Atom [60%N]; Cmp t_name [Atom [98%N]; Int 2; Atom [45%N]; Atom t_name; Atom t_name]; Atom t_name]]
+  = [true; false; false].
+Proof. vm_compute. reflexivity. Qed.
